@@ -1,7 +1,10 @@
 SPECIFICATION GSpec
 CONSTANTS Names = {"x", "y"}
           LeafIds = {1, 2}
+          DirIds = {0}
           MaxDepth = 2
+          NShards = 1
+          Shard = 0
           K = 1
 VIEW GView
 INVARIANTS Emit
